@@ -40,8 +40,21 @@ func (o *objState) key() uint64 {
 
 // objTab: open-addressing table uintptr -> *objState (no Go maps: see package doc).
 type objTab struct {
-	slots []objState
-	n     int
+	slots   []objState
+	usedIdx []int32
+	n       int
+}
+
+// reset clears the table for the next execution without giving its memory back
+// (fresh pages are very expensive on this platform).
+//
+//go:norace
+func (t *objTab) reset() {
+	for _, i := range t.usedIdx {
+		t.slots[i] = objState{}
+	}
+	t.usedIdx = t.usedIdx[:0]
+	t.n = 0
 }
 
 //go:norace
@@ -60,6 +73,7 @@ func (t *objTab) get(id uintptr) *objState {
 			s.used = true
 			s.id = id
 			t.n++
+			t.usedIdx = append(t.usedIdx, int32(i))
 			return s
 		}
 		if s.id == id {
@@ -73,6 +87,7 @@ func (t *objTab) get(id uintptr) *objState {
 func (t *objTab) grow() {
 	old := t.slots
 	t.slots = make([]objState, len(old)*2)
+	t.usedIdx = t.usedIdx[:0]
 	t.n = 0
 	for i := range old {
 		if old[i].used {
@@ -95,8 +110,19 @@ type stateCache struct {
 //go:norace
 func newStateCache() *stateCache {
 	c := &stateCache{}
-	c.alloc(1 << 16)
+	c.alloc(1 << 18)
 	return c
+}
+
+// clear empties the cache keeping its memory.
+//
+//go:norace
+func (c *stateCache) clear() {
+	for i := range c.keys {
+		c.keys[i] = 0
+	}
+	c.n = 0
+	c.hits = 0
 }
 
 //go:norace
